@@ -182,13 +182,20 @@ unsigned short le_word(const byte *d)
 
 unsigned long le_quad(const byte *d)
 {
-  return static_cast<unsigned long>(d[0] | (d[1] << 8u) |
-				    (d[2] << 16u) | (d[3] << 24u));
+  return static_cast<unsigned long>(d[0])
+    | (static_cast<unsigned long>(d[1]) << 8u)
+    | (static_cast<unsigned long>(d[2]) << 16u)
+    | (static_cast<unsigned long>(d[3]) << 24u);
 }
 
 std::optional<Header> read_and_verify_header(DFS::FileAccess *f, std::string& error)
 {
   std::vector<byte> header_data = f->read(0, 19);
+  if (header_data.size() < 19)
+    {
+      error = "file is too short to contain the HxC MFM file header";
+      return std::nullopt;
+    }
   const byte* d = header_data.data();
   /* 0x00 - 0x06 is a magic string, including a terminating NUL. */
   const char expected_magic[7] = "HXCMFM";
@@ -389,6 +396,14 @@ std::map<TrackDataKey, TrackData> HxcMfmFile::get_track_metadata()
        pos += 11)
     {
       std::vector<byte> raw_metadata = file_->read(pos, 11);
+      if (raw_metadata.size() < 11)
+	{
+	  std::ostringstream ss;
+	  ss << "the track list ends (at file position " << pos
+	     << ") before the entry for track " << (header_.tracks-1)
+	     << " side " << (header_.sides-1);
+	  throw InvalidHxcMfmFile(ss.str());
+	}
       const byte* raw = raw_metadata.data();
       const TrackDataKey key(le_word(raw), raw[2]);
       const TrackData td(le_quad(raw+3), le_quad(raw+7));
@@ -422,6 +437,17 @@ HxcMfmFile::read_all_sectors(unsigned int side,
       if (key.side_number != side)
 	continue;
 
+      // An MFM track is a few tens of kilobytes at most.  Don't let a
+      // corrupt size field make us allocate gigabytes.
+      constexpr unsigned long max_track_bytes = 1024uL * 1024uL;
+      if (td.mfmtracksize > max_track_bytes)
+	{
+	  std::ostringstream ss;
+	  ss << "image file contains metadata for track " << key.track_number
+	     << " stating that its data is " << td.mfmtracksize
+	     << " bytes long, which is not plausible";
+	  throw InvalidHxcMfmFile(ss.str());
+	}
       std::vector<byte> track = file_->read(td.mfmtrackoffset, td.mfmtracksize);
       if (track.size() != td.mfmtracksize)
 	{
